@@ -186,6 +186,18 @@ func cmdCheck(args []string) int {
 		}
 		reports = append(reports, rep)
 	}
+	// lemmas over the spec functions
+	lfiles, _ := filepath.Glob(filepath.Join(*verif, "spec", "lemmas", *prop+"_*.smt2"))
+	sort.Strings(lfiles)
+	for _, lf := range lfiles {
+		b, err := os.ReadFile(lf)
+		if err != nil {
+			continue
+		}
+		name := strings.TrimSuffix(filepath.Base(lf), ".smt2")
+		obls = append(obls, &Obligation{ID: "lemma:" + name, Kind: "lemma", Props: []string{*prop}, Func: "spec", Clause: firstComment(string(b)),
+			raw: preludeSorts + e.specText + string(b)})
+	}
 	// known findings with a witness: prove the clause on the complement
 	// (handled at generation time through o.witness; see addComplement)
 	var toSolve []*Obligation
@@ -390,3 +402,12 @@ func buildReplay(e *Engine, o *Obligation, prop, tier string) *Replay {
 }
 
 var _ = ssa.GlobalDebug
+
+func firstComment(s string) string {
+	for _, l := range strings.Split(s, "\n") {
+		if strings.HasPrefix(l, ";") {
+			return strings.TrimSpace(strings.TrimPrefix(l, ";"))
+		}
+	}
+	return ""
+}
